@@ -396,7 +396,7 @@ var (
 	backendIDs = []string{"b0", "b1", "b2", "b3"}
 	agentMails = []string{"agent0@example.com", "agent1@example.com", "agent2@example.com"}
 	// near misses of registered identities: case, prefix, suffix, sub-address
-	agentNear = []string{"Agent0@example.com", "agent0@example.com.evil.example", "xagent0@example.com", "agent0", "agent1@EXAMPLE.com", "agent0+x@example.com", "allUsers"}
+	agentNear = []string{"Agent0@example.com", "agent0@example.com.evil.example", "xagent0@example.com", "agent0", "agent1@EXAMPLE.com", "agent0+x@example.com", "allUsers", aefake.NoEmail}
 	userMails = []string{"u0@example.com", "u1@example.com", "u2@example.com"}
 	userNear  = []string{"U0@example.com", "u0@example.com.evil.example", "xu0@example.com", "u1@EXAMPLE.COM", "allusers", "AllUsers"}
 	// prefixes are matched against the DECODED request path; two of them need escaping on the wire
